@@ -55,7 +55,7 @@ REGISTERED = {
     "C16": ("runtime monitoring: noise-grammar generators vs. the real recvLine, all two-way cuts / seeded segmentations",
             "Known payload lines are decorated with the documented tmux and Windows-console noise at every position (single item) and with random multiplicities, fed in all two-way cuts or seeded segmentations, and must be read back exactly; an inserted Ctrl-C must interrupt.",
             "noise grammars deliberately no wider than the code and its captured vectors document", "DESIGN.md 5/C16"),
-    "C17": ("runtime monitoring: attacker connections against the real tunnel listener/connector with per-connection byte monitors, adoption history checked with porcupine, race detector on",
+    "C17": ("runtime monitoring: attacker connections against the real tunnel listener/connector with per-connection byte monitors, adoption observed through protocol effects and the kernel receive queue, race detector on",
             "Probing connections (wrong greeting, right prefix wrong id, duplicate genuine greeting, split greeting, silent, flooding) are raced against the genuine client; each must receive zero bytes and be closed unless adopted, at most one connection is adopted, in-band bytes are ignored once the tunnel is agreed, and a missing tunnel falls back in-band with the same result. Twin cases present the right greeting on a second connection at the same moment as the genuine one (at most one adopted; adoption read from the kernel receive queue); connector 'answer-late' makes the server adopt a connection the client has given up on.",
             "loopback sockets; relay tunnel attacked the same way only in the thorough tier", "DESIGN.md 5/C17"),
     "C18": ("runtime monitoring: pause/resume injection at every message boundary with pause-window silence monitor on the wire tap",
